@@ -19,6 +19,24 @@ class PQuery:
         return r, pathsmt.describe_path(self.cfg, path), s
 
 
+class PMulti(PQuery):
+    """Conjunction of independent single-flag queries over one CFG (one per tracked value): unsat iff
+    all are unsat; the first sat/unknown one is reported."""
+
+    def run(self, timeout_ms):
+        last = None
+        for f in self.flags:
+            ops = {bb: [o for o in v if o[1] == f] for bb, v in self.ops.items()}
+            ops = {bb: v for bb, v in ops.items() if v}
+            if not any(o[0].startswith("bad") for v in ops.values() for o in v):
+                continue
+            r, path, s = pathsmt.bmc(self.cfg, ops, [f], {}, self.L, timeout_ms)
+            last = s
+            if r != "unsat":
+                return r, pathsmt.describe_path(self.cfg, path), s
+        return "unsat", [], last
+
+
 def _fn(prog, rx, file_hint, arg0=None):
     return prog.find_fn(rx, file_hint, arg0)
 
@@ -111,7 +129,7 @@ def writeout_fsync(ctx):
         for bb in oks:
             ops.setdefault(bb, []).append(("bad_if", "dirty"))
         qs.append(PQuery("%s: every write is covered by an fsync before Ok is returned" % nm, cfg, ops, ["dirty"], {},
-                         key="%s:Ok with unsynced write" % nm))
+                         scenario="c04_commit_order", key="%s:Ok with unsynced write" % nm))
         ops2 = {bb: [o for o in v if o[0] != "clear"] for bb, v in ops.items()}
         qs.append(PQuery("%s: some path writes and returns Ok" % nm, cfg, ops2, ["dirty"], {}, expect="sat"))
         enc.add("%s @ nomt/src/%s" % (nm, fh))
@@ -135,7 +153,7 @@ def sync_order(ctx):
     _require(table, hits, "Sync::sync")
     flags = ["bitbox_waited", "beatree_waited", "meta_written"]
     qs = [PQuery("Sync::sync: wait_pre_meta(bitbox, beatree) -> Meta::write -> post_meta", cfg, ops, flags, {},
-                 key="Sync::sync:order")]
+                 scenario="c04_commit_order", key="Sync::sync:order")]
     ok = {bb: [("bad", None)] for bb in _ok_blocks(cfg)}
     qs.append(PQuery("Sync::sync: the success return is reachable", cfg, ok, [], {}, expect="sat"))
     # the three post-meta calls are all on the success path: removing Meta::write's `set` must break the order
@@ -148,6 +166,8 @@ def sync_order(ctx):
 # C14: no I/O failure is swallowed
 
 FALLIBLE_TY = re.compile(r"Result<.*(io::Error|anyhow::Error|std::io::Error)|^io::CompleteIo$|CompleteIo$|TaskResult<")
+# combinators that consume a Result and may throw its error away
+DISCARD_CALL = re.compile(r"Result::<.*>::(or|ok|err|unwrap_or|unwrap_or_else|unwrap_or_default|map_or|map_or_else|is_ok_and|iter)\b|mem::drop|::forget")
 INSPECT_CALL = re.compile(r"Try>::branch|::unwrap|::expect|::is_ok|::is_err|::map_err|::ok\b|FromResidual|join_task|::context|::with_context")
 
 
@@ -175,6 +195,8 @@ def _swallow_ops(cfg):
             dst, callee, args, _t = b.call
             for x in tracked:
                 if re.search(r"\b%s\b" % re.escape(x), args):
+                    if DISCARD_CALL.search(callee):
+                        o.append(("bad_if", "live" + x))  # error content may be thrown away
                     o.append(("clear", "live" + x))     # passed on: inspected or escaped
             if dst in tracked:
                 o.append(("set", "live" + dst))
@@ -190,9 +212,10 @@ def _swallow_ops(cfg):
             m = re.match(r"(_\d+) = discriminant\((_\d+)\);", s)
             if m and m.group(2) in tracked:
                 o.append(("clear", "live" + m.group(2)))
-        if b.is_return and "_0" not in tracked:
+        if b.is_return:
             for x in tracked:
-                o.append(("bad_if", "live" + x))
+                if x != "_0":
+                    o.append(("bad_if", "live" + x))
         if o:
             ops[bb] = o
     return ops, ["live" + x for x in sorted(tracked)], defs
@@ -219,8 +242,9 @@ def no_swallow(ctx):
         ops, flags, defs = _swallow_ops(cfg)
         if defs == 0:
             raise Unmatched("no fallible value found in " + nm)
-        qs.append(PQuery("%s: no fallible value is dropped uninspected" % nm, cfg, ops, flags, {},
-                         scenario="c14_ht_write_fails" if nm == "write_ht" else None, key="%s:swallowed result" % nm))
+        qs.append(PMulti("%s: no fallible value is dropped uninspected" % nm, cfg, ops, flags, {},
+                         scenario="c14_ht_write_fails" if nm in ("write_ht", "Sync::sync", "bitbox::SyncController::post_meta") else None,
+                         key="%s:swallowed result" % nm))
         enc.add("%s @ nomt/src/%s" % (nm, fh))
     # vacuity / sensitivity: in write_ht a completion is received on some path
     f = _fn(prog, r"^write_ht$", "bitbox/writeout.rs")
@@ -354,6 +378,6 @@ def pre_meta_no_ht_write(ctx):
     ops, hits = _events(cfg, table)
     _require(table, hits, "post_meta")
     qs.append(PQuery("bitbox::SyncController::post_meta: the WAL is truncated only after write_ht returned", cfg, ops, ["ht_written"], {},
-                     key="post_meta:truncate before write_ht"))
+                     scenario="c04_commit_order", key="post_meta:truncate before write_ht"))
     enc.add("bitbox::SyncController::post_meta @ nomt/src/bitbox/mod.rs")
     return qs, enc
